@@ -23,7 +23,10 @@ from anytree.exporter import DotExporter, MermaidExporter, UniqueDotExporter
 from . import invariants
 from .srch import ref_preorder
 from .struct import Result, Violation, stable_hash
-from .world import HNode, OpGuard, Watchdog, World
+from anytree import PreOrderIter
+
+from .ops import exec_op
+from .world import OpGuard, Watchdog, World
 
 KNOWN_OPEN = set()
 
@@ -121,6 +124,26 @@ def gen_cfg(rng, prop, tier):
         cfg.update(start=0, fset=None, sset=None, ml=None, sessions=rng.choice((1, 2)), cursors=1, mut=0, tofile=prop == "C13",
                    defaults=rng.random() < 0.7, namef=False, attrf=False, eattrf=False, forget=False, refilter=False, names=["a"] * n)
     cfg["setopt"] = rng.random() < 0.3
+    # node classes: plain Node (with hook routing), symbolic links among them, Node exactly as shipped, or a
+    # LightNodeMixin class (the two mixins cannot share a tree)
+    fam = rng.random()
+    classes = ["HNode"] * n
+    targets = [None] * n
+    if not big:
+        if fam < 0.12:
+            classes = ["HLight"] * n
+        elif fam < 0.36:
+            for i in range(1, n):
+                if rng.random() < 0.3:
+                    classes[i] = "HSym"
+                    targets[i] = rng.randrange(i)
+        elif fam < 0.44:
+            classes = ["PNode"] * n
+    cfg["classes"] = classes
+    cfg["targets"] = targets
+    cfg["faults"] = rng.random() < 0.3  # moves between sessions may be aborted by a raising hook
+    cfg["trav"] = 0 if big else rng.choice((0, 0, 0, 1, 2))  # user callables that themselves traverse the tree
+    cfg["abandon"] = rng.random() < 0.25  # iterations that are started and never finished
     return cfg
 
 
@@ -151,6 +174,29 @@ class Funcs(object):
             self.attrf = (lambda nd: "" if ix(nd) % 4 == 3 else 'shape=box,label="%d"' % ix(nd)) if cfg["attrf"] else None
             self.eattrf = (lambda p, c: "" if ix(c) % 3 == 2 else 'label="%d:%d"' % (ix(p), ix(c))) if cfg["eattrf"] else None
             self.etypef = (lambda p, c: "--" if ix(c) % 2 else "->") if cfg["etypef"] else None
+        trav = cfg.get("trav", 0)
+        if trav:
+            # callables that look at the tree before answering (a label showing the subtree size, a filter on leaves ...)
+            def touching(f):
+                if f is None:
+                    return None
+
+                def g(*a):
+                    nd = a[-1]
+                    if trav == 1:
+                        len(nd.descendants), nd.is_leaf, len(nd.leaves)
+                    else:
+                        nd.size, nd.height, next(iter(PreOrderIter(nd.root)), None), len(nd.path)
+                    return f(*a)
+
+                return g
+
+            self.filter_ = touching(self.filter_)
+            self.stop = touching(self.stop)
+            self.namef = touching(self.namef)
+            self.attrf = touching(self.attrf)
+            self.eattrf = touching(self.eattrf)
+            self.etypef = touching(self.etypef)
 
     # predictions (harness side)
     def name_of(self, i, names):
@@ -425,17 +471,50 @@ def check_alive(world):
     return invariants.check_forest(w2)
 
 
+class EndRun(Exception):
+    """The run ends without a verdict (stack or memory exhausted inside the library)."""
+
+
 def run(cfg, ops=None, rng=None):
     prop = cfg["prop"]
+
+    def lib(step, what, f, *a):
+        # a library call that has no reason to fail in this universe
+        try:
+            with OpGuard(6.0 + 0.002 * len(cfg["parents"]), 900):
+                return f(*a)
+        except Watchdog as wd:
+            raise Violation(prop, "hang", step, "hang:" + what, "step %d: %s does not terminate (%s)" % (step, what, wd))
+        except (RecursionError, MemoryError):
+            raise EndRun()
+        except Violation:
+            raise
+        except Exception as exc:  # noqa: BLE001
+            raise Violation(prop, "raises", step, "raises:%s:%s" % (what, type(exc).__name__), "step %d: %s raised %s: %s" % (step, what, type(exc).__name__, exc))
+
     res = Result()
     world = World()
     n0 = len(cfg["parents"])
     names = [nm(x) for x in cfg["names"]]
+    classes = list(cfg.get("classes") or ["HNode"] * n0)
+    targets = list(cfg.get("targets") or [None] * n0)
+    base_cls = "HLight" if classes[0] == "HLight" else ("PNode" if classes[0] == "PNode" else "HNode")
     for i in range(n0):
-        world.register(HNode(names[i]))
+        world.new(classes[i], names[i], target=None if targets[i] is None else world.nodes[targets[i]])
     for i, p in enumerate(cfg["parents"]):
         if p is not None:
             world.nodes[i].parent = world.nodes[p]
+
+    def resolve(i):
+        while targets[i] is not None:
+            i = targets[i]
+        return i
+
+    def eff_names():
+        # a link answers `name` with its target's
+        return [names[resolve(i)] for i in range(len(names))]
+
+    keep = []  # iterations that were started and abandoned
     live = dict(cfg)  # the filter/stop sets and the public settings may be changed between sessions
     if live["options"] is not None:
         live["options"] = list(live["options"])
@@ -450,6 +529,8 @@ def run(cfg, ops=None, rng=None):
     if not replay:
         plan = []
         for s in range(cfg["sessions"]):
+            if cfg.get("abandon") and rng.random() < 0.6:
+                plan.append(("abandon", 0))
             plan.append(("session", rng.choice((1, cfg["cursors"]))))
             if cfg["tofile"] and rng.random() < 0.5:
                 plan.append(("tofile", 0))
@@ -479,10 +560,14 @@ def run(cfg, ops=None, rng=None):
                         op = {"op": "open", "k": arg}
                     elif what == "tofile":
                         op = {"op": "tofile"}
+                    elif what == "abandon":
+                        alive = [j for j in range(n) if world.nodes[j] is not None]
+                        op = {"op": "abandon", "what": rng.choice(("cursor", "cursor", "preorder")), "k": rng.randint(0, 6), "n": rng.choice(alive),
+                              "drop": rng.random() < 0.4}
                     else:
                         r = rng.random()
                         alive = [j for j in range(n) if world.nodes[j] is not None]
-                        leaves = [j for j in alive if j != cfg["start"] and not world.nodes[j].children]
+                        leaves = [j for j in alive if j != cfg["start"] and not world.nodes[j].children and j not in targets]
                         if cfg.get("setopt") and rng.random() < 0.3:
                             what = rng.choice(("append", "pop", "options", "indent", "name", "graph"))
                             op = {"op": "setopt", "what": what, "v": {"append": "opt%d;" % step, "pop": None, "options": ["o%d;" % step], "indent": rng.choice((0, 1, 3, 8)),
@@ -496,6 +581,8 @@ def run(cfg, ops=None, rng=None):
                         elif r < 0.5 and n > 1:
                             i = rng.choice(alive)
                             op = {"op": "parent", "n": i, "p": rng.choice([None] + [j for j in alive if j != i])}
+                            if cfg.get("faults") and rng.random() < 0.5:
+                                op["f"] = {"once": [[rng.randrange(4), rng.choice(("SimFault", "SimRuntime", "SimTreeError")), None]]}
                         elif r < 0.75:
                             op = {"op": "rename", "n": rng.choice(alive),
                                   "name": rng.choice(cfg["names"]) if rng.random() < 0.4 else (rng.choice(NAMES) if rng.random() < 0.5 else rand_name(rng))}
@@ -510,15 +597,18 @@ def run(cfg, ops=None, rng=None):
                     step += 1
                     continue
                 snap = snap_of(world)
+                if check_alive(world):
+                    # (a link class or cache that breaks C01 makes the public view cyclic or contradictory: nothing to judge against)
+                    raise Violation("GUARD", "guard", step, "guard", "forest inconsistent before session at step %d" % step)
                 for k in range(op["k"]):
-                    cursors[k] = iter(exporter)
+                    cursors[k] = lib(step, "iter(exporter)", iter, exporter)
                     collected[k] = []
                 res.bump("sessions")
                 res.bump("cursors_opened", op["k"])
                 if op["k"] > 1:
                     res.bump("interleaved_sessions")
                 session_snap = snap
-                session_names = list(names)
+                session_names = eff_names()
             elif kind == "step":
                 c = op["c"]
                 if c in cursors:
@@ -529,37 +619,73 @@ def run(cfg, ops=None, rng=None):
                         res.bump("cursor_steps")
                     except Watchdog as wd:
                         raise Violation(prop, "hang", step, "hang:iteration", "step %d: the exporter's iteration does not terminate (%s)" % (step, wd))
+                    except (RecursionError, MemoryError):
+                        raise EndRun()
+                    except Violation:
+                        raise
                     except StopIteration:
                         del cursors[c]
                         lines = collected.pop(c)
                         h.update(repr((step, c, lines)).encode())
                         res.sigs.add(stable_hash((cfg["kind"], shape_of(session_snap, live), cfg["ml"], cfg["fset"] is not None, cfg["sset"] is not None,
-                                                  cfg["namef"], cfg["attrf"], cfg["eattrf"], len(lines) > 3)))
+                                                  cfg["namef"], cfg["attrf"], cfg["eattrf"], len(lines) > 3, base_cls, any(t is not None for t in targets))))
                         judge.judge(step, lines, session_snap, session_names, res)
+                    except Exception as exc:  # noqa: BLE001
+                        # no callable of this universe raises and every setting is legal: the exporter must not either
+                        raise Violation(prop, "raises", step, "raises:iteration:" + type(exc).__name__,
+                                        "step %d: iterating the exporter raised %s: %s after lines %r" % (step, type(exc).__name__, exc, collected[c][-3:]))
             elif kind == "tofile" and not cursors and cfg["kind"] == "mermaid":
                 snap = snap_of(world)
+                if check_alive(world):
+                    raise Violation("GUARD", "guard", step, "guard", "forest inconsistent before to_file at step %d" % step)
                 # a real (scratch) file: whatever way the implementation opens it, the bytes on disk count
                 import tempfile
 
                 fd, path = tempfile.mkstemp(prefix="anytree-mermaid-", suffix=".md")
                 os.close(fd)
                 try:
-                    exporter.to_file(path)
+                    lib(step, "to_file", exporter.to_file, path)
                     with open(path, "rb") as fh:
                         raw = fh.read()
                 finally:
                     os.remove(path)
                 buf = io.StringIO(raw.decode("utf-8"))
                 text = buf.getvalue()
-                lines = list(exporter)
-                judge.judge(step, lines, snap, list(names), res)
+                lines = lib(step, "list(exporter)", list, exporter)
+                judge.judge(step, lines, snap, eff_names(), res)
                 want = "```mermaid\n" + "".join("%s\n" % ln for ln in lines) + "```"
                 res.bump("to_file_calls")
                 if text != want:
                     raise Violation(prop, "to_file", step, "to_file", "step %d: to_file wrote %r, expected %r" % (step, text, want))
+            elif kind == "abandon" and not cursors:
+                # an iteration that is started and never finished (a consumer that stops reading, an export aborted half-way):
+                # it must not leave anything behind that a later export can see
+                if op["what"] == "cursor":
+                    it = lib(step, "iter(exporter)", iter, exporter)
+                else:
+                    i = op["n"] if op["n"] < n and world.nodes[op["n"]] is not None else cfg["start"]
+                    it = iter(PreOrderIter(world.nodes[i]))
+                for _ in range(op["k"]):
+                    try:
+                        with OpGuard(3.0 + 0.002 * n, 900):
+                            next(it)
+                    except Watchdog as wd:
+                        raise Violation(prop, "hang", step, "hang:iteration", "step %d: the iteration does not terminate (%s)" % (step, wd))
+                    except (RecursionError, MemoryError):
+                        raise EndRun()
+                    except StopIteration:
+                        break
+                    except Exception as exc:  # noqa: BLE001
+                        raise Violation(prop, "raises", step, "raises:iteration:" + type(exc).__name__, "step %d: a partial iteration raised %s: %s" % (step, type(exc).__name__, exc))
+                if op.get("drop"):
+                    del it
+                    gc.collect()
+                else:
+                    keep.append(it)
+                res.bump("abandoned_iterations")
             elif kind == "forget" and not cursors:
                 i = op["n"]
-                if i < n and i != cfg["start"] and world.nodes[i] is not None and not world.nodes[i].children:
+                if i < n and i != cfg["start"] and world.nodes[i] is not None and not world.nodes[i].children and i not in targets:
                     # the node leaves the tree and every reference to it is dropped: it is really freed
                     world.nodes[i].parent = None
                     world._idx.pop(id(world.nodes[i]), None)
@@ -600,25 +726,30 @@ def run(cfg, ops=None, rng=None):
             elif kind == "parent" and not cursors:
                 if op["n"] < n and (op["p"] is None or op["p"] < n) and world.nodes[op["n"]] is not None and (op["p"] is None or world.nodes[op["p"]] is not None):
                     try:
-                        world.nodes[op["n"]].parent = None if op["p"] is None else world.nodes[op["p"]]
-                        res.bump("moves")
-                    except Exception:  # noqa: BLE001
-                        pass
+                        status, _exc = exec_op(world, {"op": "parent", "n": op["n"], "p": op["p"], "f": op.get("f")})
+                    except Watchdog as wd:
+                        raise Violation("GUARD", "hang", step, "hang:parent", "step %d: %r does not terminate (%s)" % (step, op, wd))
+                    res.bump("moves" if status == "ok" else "moves_refused_or_aborted")
+                    if world.fired:
+                        res.bump("moves_aborted_by_hook_fault")
                     if check_alive(world):
                         raise Violation("GUARD", "guard", step, "guard", "forest inconsistent after %r" % (op,))
             elif kind == "rename" and not cursors:
                 if op["n"] < n and world.nodes[op["n"]] is not None:
-                    world.nodes[op["n"]].name = nm(op["name"])
-                    names[op["n"]] = nm(op["name"])
+                    world.nodes[op["n"]].name = nm(op["name"])  # through a link: stored on the target
+                    names[resolve(op["n"])] = nm(op["name"])
                     res.bump("renames")
             elif kind == "new" and not cursors:
                 if op["p"] < n and world.nodes[op["p"]] is not None:
-                    world.register(HNode(nm(op["name"]), parent=world.nodes[op["p"]]))
+                    world.new(base_cls, nm(op["name"]), parent=world.nodes[op["p"]])
                     names.append(nm(op["name"]))
+                    targets.append(None)
                     res.bump("new_nodes")
             step += 1
     except Violation as v:
         res.violation = v
+    except EndRun:
+        res.bump("runs_ended_by_stack_or_memory_exhaustion")
     res.digest = h.hexdigest()
     res.bump("runs")
     return res
@@ -645,16 +776,24 @@ def simplify_cfg(cfg, ops):
     for key, val in (("namef", False), ("attrf", False), ("eattrf", False), ("etypef", False), ("options", None), ("defaults", True), ("tofile", False)):
         if cfg[key] != val:
             yield dict(cfg, **{key: val}), ops
+    for key, val in (("trav", 0), ("abandon", False), ("faults", False)):
+        if cfg.get(key, val) != val:
+            yield dict(cfg, **{key: val}), ops
     n = len(cfg["parents"])
+    if cfg.get("classes") and any(c != "HNode" for c in cfg["classes"]):
+        yield dict(cfg, classes=["HNode"] * n, targets=[None] * n), ops
     if n > 1:
         last = n - 1
         used = any(p == last for p in cfg["parents"]) or cfg["start"] == last or any(
-            o.get("n") == last or o.get("p") == last for o in ops if o["op"] in ("parent", "rename", "new")
-        ) or any(o["op"] == "new" for o in ops)
+            o.get("n") == last or o.get("p") == last for o in ops if o["op"] in ("parent", "rename", "new", "abandon", "forget")
+        ) or any(o["op"] == "new" for o in ops) or last in (cfg.get("targets") or ())
         if not used:
             c2 = dict(cfg)
             c2["parents"] = cfg["parents"][:-1]
             c2["names"] = cfg["names"][:-1]
+            if cfg.get("classes"):
+                c2["classes"] = cfg["classes"][:-1]
+                c2["targets"] = cfg["targets"][:-1]
             c2["fset"] = None if cfg["fset"] is None else [x for x in cfg["fset"] if x != last]
             c2["sset"] = None if cfg["sset"] is None else [x for x in cfg["sset"] if x != last]
             yield c2, ops
